@@ -39,10 +39,17 @@ BOXES = [(0, 0, 1, 1), (-1, -1, 10, 10), (3, 3, 5, 5), (1.25, 1.25, 1.5, 1.5), (
 HD_BOUNDS = (-2.0, -2.0, 14.0, 14.0)
 
 
-def base_elems(kind, st):
+def base_elems(kind, st, long=False):
     el = list(BASES[kind])
     if kind == "point" and not st.startswith("float"):
         el[3] = (0, 0)
+    if long:
+        # 20 elements: the validity bitmap spans three bytes; missing elements on both sides of the byte boundaries
+        pres = [e for e in el if e is not None]
+        out = [pres[i % len(pres)] for i in range(20)]
+        for i in (1, 7, 8, 10, 15, 18):
+            out[i] = None
+        return out
     return el
 
 
@@ -55,9 +62,9 @@ def shapes_for_points():
 class Base:
     """quantities computed once on the base array"""
 
-    def __init__(self, kind, st):
+    def __init__(self, kind, st, long=False):
         self.kind, self.st = kind, st
-        self.elems = base_elems(kind, st)
+        self.elems = base_elems(kind, st, long)
         self.arr = L.make_array(kind, self.elems, st)
         a = self.arr
         self.py = a.data.to_pylist()
@@ -109,8 +116,25 @@ def slice_menu(full):
     return [("slice", a, b, s) for a in vals for b in vals for s in steps]
 
 
-def ops_for_factory(full, with_parquet_depth):
+def long_menu(n):
+    starts = [None, 1, 7, 8, 9, 15, 16, 17]
+    stops = [None, 12, 17, -1, -3]
+    ops = [("slice", a, b, s) for a in starts for b in stops for s in (None, 2)]
+    ops += [("mask", tuple(i % 3 != 1 for i in range(n))), ("mask", tuple(8 <= i < 17 for i in range(n)))]
+    ops += [("take", tuple(range(n - 1, -1, -1)), False), ("take", (8, 7, 16, 0, n - 1) if n > 16 else tuple(range(min(n, 3))), False),
+            ("take", (-1, 8, 9, -1) if n > 9 else (-1,), True)]
+    ops += [("concat_self",), ("copy",), ("pickle",), ("series_iloc", 8, None), ("series_iloc", 16, None), ("frame_iloc", tuple(range(8, n)))]
+    return ops
+
+
+def ops_for_factory(full, with_parquet_depth, long=False):
     smenu = slice_menu(full)
+
+    def ops_for_long(arr, ids, depth):
+        return long_menu(len(ids))
+
+    if long:
+        return ops_for_long
 
     def ops_for(arr, ids, depth):
         n = len(ids)
@@ -240,7 +264,7 @@ def expected_py(base, ids):
 
 
 def case_of(base, hist, extra=None):
-    c = {"kind": base.kind, "subtype": base.st, "history": [list(map(lambda x: list(x) if isinstance(x, tuple) else x, op)) for op in hist]}
+    c = {"kind": base.kind, "subtype": base.st, "long": len(base.elems) > 4, "history": [list(map(lambda x: list(x) if isinstance(x, tuple) else x, op)) for op in hist]}
     if extra:
         c.update(extra)
     return c
@@ -345,9 +369,9 @@ def check_state(col, base, arr, ids, hist):
 # ------------------------------------------------------------------------------------------------
 # driver
 # ------------------------------------------------------------------------------------------------
-def explore(col, kind, st, depth, full, shard, nshards, scratch, parquet_depth):
-    base = Base(kind, st)
-    ops_for = ops_for_factory(full, parquet_depth)
+def explore(col, kind, st, depth, full, shard, nshards, scratch, parquet_depth, long=False):
+    base = Base(kind, st, long)
+    ops_for = ops_for_factory(full, parquet_depth, long)
 
     def key(arr, ids):
         return (tuple(ids), layout_key(arr))
@@ -409,6 +433,8 @@ def run(ctx):
             if T:
                 for sh in range(2):
                     units.append((kind, st, 2, True, sh, 2))
+    for kind in O.KINDS:
+        units.append((kind, "float64", 2, "long", 0, 1))
     # warm
     for kind in O.KINDS:
         for st in ("float64", "int32"):
@@ -419,6 +445,9 @@ def run(ctx):
 
     def work(col, i):
         kind, st, d, fl, sh, ns = units[i]
+        if fl == "long":
+            explore(col, kind, st, d, False, sh, ns, scratch, parquet_depth=0, long=True)
+            return
         explore(col, kind, st, d, fl, sh, ns, scratch, parquet_depth=2 if T else 1)
 
     core.pmap(ctx, work, len(units))
@@ -438,7 +467,7 @@ def run(ctx):
 
 def replay(ctx, case):
     col = core.Collector()
-    base = Base(case["kind"], case["subtype"])
+    base = Base(case["kind"], case["subtype"], case.get("long", False))
     arr, ids = base.arr, list(range(len(base.elems)))
     hist = []
     scratch = ctx.scratch()
